@@ -1019,7 +1019,8 @@ class Emitter:
                     start = end
             elif spaces:
                 if ch != ' ':
-                    if start+1 == end and self.column > self.best_width:
+                    if start+1 == end and self.column > self.best_width \
+                            and not leading_space:
                         self.write_indent()
                     else:
                         data = text[start:end]
